@@ -32,7 +32,29 @@ def walk_ctx(n, anc=()):
             yield from walk_ctx(v, anc)
 
 
+def r_listargs(ctx):
+    rid = "C18.listargs"
+    ctx.rule(rid, "every list-valued option of `cddl validate` (a field of type Option<Vec<String>>: --features, --json, --cbor, --csv) is "
+                  "declared to split its value at the delimiter (use_value_delimiter = true or value_delimiter = ..), so that the documented "
+                  "comma-separated form `--features a,b` reaches the library as the list [a, b] and not as one feature \"a,b\"", floor=4)
+    it = ctx.facts.item(CLI, "structdef", "Validate")
+    if it is None:
+        raise vf.Incomplete("struct Validate not found in %s" % CLI)
+    n = 0
+    for fld in it["fields"]:
+        if fld["ty"].replace(" ", "") != "Option<Vec<String>>":
+            continue
+        n += 1
+        attrs = " ".join(fld.get("attrs") or [])
+        split = "use_value_delimiter=true" in attrs.replace(" ", "") or "value_delimiter=" in attrs.replace(" ", "").replace("use_value_delimiter=", "")
+        ctx.site(rid, fld["n"], CLI, fld["l"], {"clap": attrs[:160], "splits": split})
+        if not split:
+            ctx.violation(rid, fld["n"], CLI, fld["l"], "option --%s is list-valued but does not split its value at the delimiter: `--%s a,b` is passed on "
+                          "as the single value \"a,b\"" % (fld["n"], fld["n"]))
+
+
 def run(ctx):
+    ctx.guarded("C18.listargs", r_listargs)
     f = ctx.facts
     mains = [fi for fi in f.fns(CLI) if fi.name == "main" and not any("target_arch=\"wasm32\"" == c for c in fi.cfg)]
     if not mains:
